@@ -18,7 +18,7 @@ TECHNIQUE = ('metamorphic runtime monitor: parse -> print -> parse on the real p
              'spread of credentials/targets; run-wide printed-form -> decision-vector dictionary (injectivity up to meaning)')
 RULE = ('cases = T: expression-generator rules in text form over leaves of every built-in kind (role, rule:, generic '
         'literal and path, http/https with a stub transport, @, !) in several spellings; Ls: the same as list-of-lists '
-        'values; S: rule sets of <= 6 rules with always-allow entries ("", "@", []) dumped with str(Rules) and re-loaded; '
+        'values; S: rule sets of <= 6 rules with always-allow entries ("", "@", []) dumped with str(Rules) and re-loaded, then changed (update / item assignment / merge through an enforcer / deletion) and dumped and re-loaded again; '
         'Q: pairs of RuleDefault objects compared with ==. Decisions are taken in 24 worlds (credentials x target) '
         'chosen so that every leaf kind varies. Non-trivial = the decision vector is not constant; distinct = distinct rule value.')
 ASSUMPTIONS = ['leaves contain no whitespace and, in list form, no leading ( or trailing ) - the tokenizer can never produce such a leaf from text',
@@ -30,7 +30,7 @@ LEVEL_TEXT = ('Seeded sampling of rules over all leaf kinds; each is printed and
 LEVEL_NOTE = 'trusted: the world set distinguishes rules only up to those 24 evaluations; a stub of requests.post as transport'
 PLAN = {'quick': dict(shards=4, wall=60), 'thorough': dict(shards=16, wall=400)}
 MIN = {'evaluations': 2000, 'reparsed_rules': 2000, 'rulesets_roundtripped': 100, 'eq_true_pairs': 50,
-       'printed_forms_with_multiple_sources': 50}
+       'printed_forms_with_multiple_sources': 50, 'second_dumps': 50}
 ANCHORS = ['oslo_policy._parser:parse_rule', 'oslo_policy.policy:Rules.__str__', 'oslo_policy.policy:Rules.load',
            'oslo_policy.policy:RuleDefault.__eq__', 'oslo_policy._checks:AndCheck.__str__', 'oslo_policy._checks:OrCheck.__str__',
            'oslo_policy._checks:NotCheck.__str__']
@@ -204,6 +204,38 @@ def check_case(ctx, real, case):
                 ctx.violation('reloaded-ruleset-decides-differently', case,
                               {'rule': name, 'value': case['rules'][name], 'dump': dumped, 'decisions': v1, 'after_reload': v2})
                 return
+        # the rule set changes after it was dumped once (merge via update / item assignment / deletion): a second dump
+        # must describe the rule set as it is NOW
+        if case.get('then'):
+            how, extra = case['then']
+            try:
+                parsed = {k: real._parser.parse_rule(v) for k, v in extra.items()}
+                if how == 'update':
+                    r1.update(parsed)
+                elif how == 'setitem':
+                    for k, v in parsed.items():
+                        r1[k] = v
+                elif how == 'merge-via-enforcer':
+                    real.enf.set_rules(r1)
+                    str(real.enf.rules)
+                    real.enf.set_rules(P.Rules.from_dict(extra), overwrite=False)
+                    r1 = real.enf.rules
+                elif how == 'delete':
+                    for k in list(extra):
+                        r1.pop(k, None)
+                    parsed = {}
+                r3 = P.Rules.load(str(r1))
+            except Exception as e:
+                ctx.violation('ruleset-dump-or-load-raises', case, {'then': case['then'], 'observed': type(e).__name__ + ': ' + str(e)[:100]})
+                return
+            ctx.count('second_dumps')
+            if sorted(r3) != sorted(r1):
+                ctx.violation('second-dump-is-stale', case, {'then': case['then'], 'names_now': sorted(r1), 'names_in_dump': sorted(r3)})
+                return
+            for name in r1:
+                if real.vector(r1[name]) != real.vector(r3[name]):
+                    ctx.violation('second-dump-is-stale', case, {'then': case['then'], 'rule': name, 'now': str(r1[name]), 'in_dump': str(r3[name])})
+                    return
 
 
 def gen_case(rnd):
@@ -230,7 +262,14 @@ def gen_case(rnd):
         else:
             ast, leaves = gen_ast(rnd)
             rules['r%d' % i] = expr.spell(expr.to_tokens(ast, lambda j: leaves[j]))
-    return dict(kind='S', rules=rules)
+    case = dict(kind='S', rules=rules)
+    if rnd.random() < 0.6:
+        extra = {}
+        for nm in rnd.sample(sorted(rules) + ['new1'], rnd.randint(1, 2)):
+            ast, leaves = gen_ast(rnd)
+            extra[nm] = expr.spell(expr.to_tokens(ast, lambda j: leaves[j]))
+        case['then'] = [rnd.choice(['update', 'setitem', 'merge-via-enforcer', 'delete']), extra]
+    return case
 
 
 class _Reply:
